@@ -106,10 +106,13 @@ def build(key, variant, i):
         admin = 'admin=True' in variant
         perm = 'permission=True' in variant
         user = NS(is_authenticated=b['authenticated'], is_admin=b['is_admin'], has_permission=lambda g: b['in_group'])
-        ns = {'current_user': user, 'jwt_current_user': user, 'needs_login_response': lambda **kw: refuse(),
-              'jsonify_no_content': lambda code: refuse(code), 'Group': object}
+        method = 'POST' if b['is_post'] else ('PUT' if b['is_put'] else 'DELETE')
+        ns = {'current_user': user, 'jwt_current_user': user, 'needs_login_response': lambda *a, **kw: refuse(),
+              'jsonify_no_content': lambda code: refuse(code), 'Group': object, 'flask': NS(request=NS(method=method))}
         factory = extract(qual, ns)
         kw = dict(admin=admin, permission='MEDIA' if perm else None)
+        if variant.endswith(',html'):
+            kw['html'] = True
         return {'env': env, 'call': lambda: factory(**kw)(body)()}
     optional = 'optional=True' in variant
 
